@@ -277,7 +277,7 @@ struct Signed {
     hdr: (usize, usize),
     payload_off: usize,
     sha256_at: usize,
-    payload_digest_at: usize,
+    payload_digest_at: Option<usize>,
 }
 
 fn signed(env: &Env, key: Key) -> Signed {
@@ -287,16 +287,18 @@ fn signed(env: &Env, key: Key) -> Signed {
     let (_, sig, hdr, l) = scan(&bytes).unwrap_or_else(|| crate::ctx::machinery("signed package does not scan"));
     let e = sig.find(SIGTAG_SHA256).unwrap_or_else(|| crate::ctx::machinery("no SHA256 tag in the signature header"));
     let sha256_at = l.sig_off + 16 + 16 * sig.entries.len() + e.offset as usize;
-    let e = hdr.find(TAG_PAYLOADDIGEST).unwrap_or_else(|| crate::ctx::machinery("no payload digest in the header"));
-    let payload_digest_at = l.hdr_off + 16 + 16 * hdr.entries.len() + e.offset as usize;
+    // a package without a payload digest is not a machinery problem: the flips below then show that nothing ties the payload to the signature
+    let payload_digest_at = hdr.find(TAG_PAYLOADDIGEST).map(|e| l.hdr_off + 16 + 16 * hdr.entries.len() + e.offset as usize);
     Signed { key, bytes, hdr: (l.hdr_off, l.payload_off), payload_off: l.payload_off, sha256_at, payload_digest_at }
 }
 
 /// Recompute every digest the library checks so that only the signature stands between
 /// the modification and success.
 fn fix_up(s: &Signed, x: &mut Vec<u8>) {
-    let pd = sha256_hex(&x[s.payload_off..]);
-    x[s.payload_digest_at..s.payload_digest_at + 64].copy_from_slice(pd.as_bytes());
+    if let Some(at) = s.payload_digest_at {
+        let pd = sha256_hex(&x[s.payload_off..]);
+        x[at..at + 64].copy_from_slice(pd.as_bytes());
+    }
     let mut h = x[s.hdr.0..s.hdr.1].to_vec();
     h[4..8].copy_from_slice(&[0; 4]); // canonical form: reserved bytes zero
     let hd = sha256_hex(&h);
